@@ -7,7 +7,9 @@ import (
 	"flag"
 	"fmt"
 	"os"
+	"os/exec"
 	"path/filepath"
+	"strings"
 
 	"verifharness/mon"
 	"verifharness/world"
@@ -329,7 +331,84 @@ func c15(x *mon.Ctx) {
 		}
 		x.Note("provider-kind", name, false, pv != "", true)
 	}
+	// ---- the real LinuxDevice (ioctl path) on a regular file, with the kernel's answers injected by strace
+	realDevice(x, fake)
 	x.Require("provider-supported", 4, 2, 6)
 	x.Require("provider-unsupported", 0, 0, 2)
 	_ = world.Epoch
+}
+
+
+// realDevice runs this binary as a probe (-devprobe) under `strace -e inject=ioctl:...`: the real
+// client.LinuxDevice performs the two ioctls on a regular file and strace decides what the "kernel" answers.
+// With every ioctl forced to succeed the driver wrote nothing: status 0 and OutLen 0 — that must be an error.
+func realDevice(x *mon.Ctx, path string) {
+	strace, err := exec.LookPath("strace")
+	if err != nil {
+		x.Inconclusive("real-device sub-check skipped: strace not found")
+		return
+	}
+	self, err := os.Executable()
+	if err != nil {
+		x.Inconclusive("real-device sub-check skipped: " + err.Error())
+		return
+	}
+	for _, inj := range []struct {
+		name, spec string
+		wantErr    string // substring the error must contain ("" = any error)
+	}{
+		{"no-injection(ENOTTY)", "", ""},
+		{"all-ioctls-succeed", "ioctl:retval=0", "invalid Quote size"},
+		{"all-ioctls-EBUSY", "ioctl:error=EBUSY", ""},
+		{"all-ioctls-EINVAL", "ioctl:error=EINVAL", ""},
+		{"all-ioctls-EIO", "ioctl:error=EIO", ""},
+		{"all-ioctls-return-9", "ioctl:retval=9", "unable to get the report"},
+		{"all-ioctls-return-1", "ioctl:retval=1", "unable to get the report"},
+	} {
+		args := []string{"-f", "-qq", "-o", "/dev/null", "-e", "trace=ioctl"}
+		if inj.spec != "" {
+			args = append(args, "-e", "inject="+inj.spec)
+		}
+		args = append(args, self, "-devprobe", path)
+		cmd := exec.Command(strace, args...)
+		var so, se bytes.Buffer
+		cmd.Stdout, cmd.Stderr = &so, &se
+		runErr := cmd.Run()
+		var res struct {
+			Panic, OpenErr, Err string
+			Len                 int
+			Nil                 bool
+		}
+		line := strings.TrimSpace(so.String())
+		if i := strings.LastIndex(line, "{"); i >= 0 {
+			line = line[i:]
+		}
+		prob := ""
+		switch {
+		case json.Unmarshal([]byte(line), &res) != nil:
+			if strings.Contains(se.String(), "panic:") || strings.Contains(se.String(), "fatal error:") {
+				prob = "the probe crashed: " + se.String()
+			} else {
+				x.Inconclusive(fmt.Sprintf("real-device %s: probe produced no result (%v): %s", inj.name, runErr, se.String()))
+				continue
+			}
+		case res.Panic != "":
+			prob = "GetRawQuote through the real device panics: " + res.Panic
+		case res.OpenErr != "":
+			x.Inconclusive("real-device: cannot open " + path + ": " + res.OpenErr)
+			continue
+		case res.Err == "":
+			prob = fmt.Sprintf("the kernel wrote no quote, yet GetRawQuote returned %d bytes and a nil error", res.Len)
+		case !res.Nil:
+			prob = "an error was returned together with data"
+		case inj.wantErr != "" && !strings.Contains(res.Err, inj.wantErr):
+			// the message is informative only; a different error is still an error
+		}
+		if prob != "" {
+			x.Violation("real-device", inj.name, prob, "none", map[string]any{"injection": inj.spec, "stdout": so.String(), "stderr": se.String()})
+		}
+		x.Note("real-device", inj.name, res.Err == "", false, prob == "")
+		x.Sample(map[string]any{"real_device_injection": inj.name, "strace": inj.spec, "error_returned": res.Err})
+	}
+	x.Require("real-device", 0, 5, 5)
 }
